@@ -22,6 +22,16 @@ def build(sp):
     for u, v, d in sp["edges"]:
         G.add_edge(u, v, **d)
     G.graph.update(sp.get("graph", {}))
+    npt = sp.get("np_type")
+    if npt:
+        # the same numbers stored as numpy scalars of the named type (what a graph built from an array or a data frame carries);
+        # sp["np_attrs"] names the attributes concerned (default: "flow")
+        import numpy as np
+        t = getattr(np, npt)
+        for attrs in [d for _, d in G.nodes(data=True)] + [d for _, _, d in G.edges(data=True)]:
+            for a in sp.get("np_attrs", ["flow"]):
+                if a in attrs and attrs[a] is not None and not isinstance(attrs[a], bool):
+                    attrs[a] = t(attrs[a])
     return G
 
 
